@@ -86,12 +86,12 @@ func init() {
 	stub := []string{"router (stub: every GetClosestPeers parks)", "pb.MessageSender (level A: every ADD_PROVIDER parks)", "datastores (simds: operations park)", "host (simhost)", "crypto/rand (constant per run)"}
 	faults := append([]string{"fault_rpc_error", "fault_gcp_error", "probe_close_provide_inflight", "probe_close_gcp_parked", "probe_close_offline", "probe_close_online", "probe_cfg_own_keystore", "probe_cfg_no_schedule", "probe_cfg_no_host",
 		"probe_cfg_slow_keystore", "probe_close_op_in_keystore", "probe_cfg_no_self_addrs", "probe_batch_asked_for_addrs"}, c14CommonFaults...)
-	sim.Register(&sim.Scenario{Prop: "C14", Name: "sweeping-provider", Weight: 3, Run: func(s *sim.Sim) { runC14Provider(s, false, false) },
+	sim.Register(&sim.Scenario{Prop: "C14", Name: "sweeping-provider", Weight: 3, Run: func(s *sim.Sim) { runC14Provider(s, false, false, false) },
 		Real:   []string{"provider.New / SweepingProvider.Close (done channel, wait-group guard lock, worker pool closed before waiting, cleanup functions)", "connectivity checker", "provide/reprovide loops, batch and individual provides in flight", "keystore (default or caller-supplied)"},
 		Stub:   stub,
 		Faults: faults,
 	})
-	sim.Register(&sim.Scenario{Prop: "C14", Name: "buffered-provider", Weight: 3, Run: func(s *sim.Sim) { runC14Provider(s, true, false) },
+	sim.Register(&sim.Scenario{Prop: "C14", Name: "buffered-provider", Weight: 3, Run: func(s *sim.Sim) { runC14Provider(s, true, false, false) },
 		Real:   []string{"buffered.New / worker / Close (queue closed, wrapped provider closed, worker joined)", "go-dsqueue", "provider.SweepingProvider underneath"},
 		Stub:   stub,
 		Faults: append([]string{"probe_close_batch_in_worker", "probe_close_worker_busy_ops_queued", "fault_qds_error_at_close", "fault_qds_stall_at_close", "probe_qds_stall_outlasted", "probe_close_returned_error"}, faults...),
@@ -269,9 +269,17 @@ func c14DrawProvCfg(s *sim.Sim) c14ProvCfg {
 // runC14Provider: tight selects the "sweeping-provider-tight" variant (see
 // c14_provider_tight.go): more recipients per batch than the provider may
 // serve at a time.
-func runC14Provider(s *sim.Sim, buffer, tight bool) {
+//
+// reset selects the "sweeping-provider-reset" variant (see
+// c14_provider_reset.go): the caller's keystore is a ResettableKeystore that
+// the caller resets and whose schedule it then refreshes, on a slow disk.
+func runC14Provider(s *sim.Sim, buffer, tight, reset bool) {
 	s.MaxSteps = 900
 	defer c14ConstRand(s)()
+	if reset {
+		// only this variant: the other scenarios keep the plain lock hook
+		c14InstallRWPref(s)
+	}
 	name := "sweeping-provider"
 	if buffer {
 		name = "buffered-provider"
@@ -279,7 +287,13 @@ func runC14Provider(s *sim.Sim, buffer, tight bool) {
 	if tight {
 		name = "sweeping-provider-tight"
 	}
+	if reset {
+		name = "sweeping-provider-reset"
+	}
 	cfg := c14DrawProvCfg(s)
+	if reset {
+		c14ResetVariantCfg(&cfg)
+	}
 	n := s.Range("peers", 1, 5)
 	conns := 8 // >= peers: the per-peer jobs start together
 	if tight {
@@ -348,7 +362,12 @@ func runC14Provider(s *sim.Sim, buffer, tight bool) {
 	// a caller-supplied keystore belongs to the caller: it exists before the
 	// baseline and is closed after the census
 	var ownKS keystore.Keystore
-	if cfg.ownKeystore {
+	var rv *c14ResetVariant
+	if reset {
+		s.Count("probe_cfg_own_keystore")
+		rv = newC14ResetVariant(s, f, mk("ksds"))
+		ownKS = rv.rks
+	} else if cfg.ownKeystore {
 		s.Count("probe_cfg_own_keystore")
 		var err error
 		ownKS, err = keystore.NewKeystore(mk("ksds"), keystore.WithBatchSize(2))
@@ -453,7 +472,7 @@ func runC14Provider(s *sim.Sim, buffer, tight bool) {
 	}
 	s.Quiesce()
 	f.strict = true
-	f.constructed(false)
+	f.constructed(rv != nil && rv.settle)
 	if cfg.parkDS {
 		for _, d := range dss {
 			// (the caller's keystore serialises concurrent requests of the
@@ -516,6 +535,9 @@ func runC14Provider(s *sim.Sim, buffer, tight bool) {
 			f.client("clear", func(ctx context.Context) (any, error) { return p.Clear(), nil })
 		}
 	}
+	if rv != nil {
+		rv.clients(p.RefreshSchedule)
+	}
 	// queuedBehind: the caller's keystore holds a write of the instance right
 	// now, and since that write began further queueing operations (start / stop
 	// providing, provide once) have returned to their callers. Behind the
@@ -559,6 +581,9 @@ func runC14Provider(s *sim.Sim, buffer, tight bool) {
 				return false
 			}
 		}
+		if rv != nil && !rv.mayStart(c, waiters()) {
+			return false
+		}
 		if c.name == "provideonce" && buffer && cfg.slowKeystore {
 			// Behind the buffering worker a provide-once does not pass through the
 			// keystore: queued behind a start-providing that sits in the slow
@@ -585,7 +610,7 @@ func runC14Provider(s *sim.Sim, buffer, tight bool) {
 		return false
 	}
 	f.enabled = func(p *sim.Parked) bool {
-		if p.Kind == "ks" || comeBack(p) {
+		if p.Kind == "ks" || comeBack(p) || (rv != nil && rv.startsCatchUp(p)) {
 			return waiters() == 0
 		}
 		return true
@@ -596,6 +621,9 @@ func runC14Provider(s *sim.Sim, buffer, tight bool) {
 		f.closeNow = func() bool { observeKS(); return ksSeen != "" && nQueued() > doneAtKs }
 	}
 	f.atClose = func() {
+		if rv != nil {
+			rv.atClose(sp)
+		}
 		observeKS()
 		if ksSeen != "" {
 			s.Count("probe_close_op_in_keystore")
@@ -646,6 +674,9 @@ func runC14Provider(s *sim.Sim, buffer, tight bool) {
 	}
 	f.closeAt = s.Range("close-at", 0, 60)
 	f.interleave = s.Draw("interleave", 12)
+	if rv != nil {
+		rv.aimClose()
+	}
 	f.run()
 	if c14Debug && f.closeOp != nil {
 		s.Tracef("DEBUG close done=%v err=%v", f.closeOp.Done, f.closeOp.Err)
